@@ -480,6 +480,10 @@ func (fd *Client) Query(input *dynamodb.QueryInput) (*dynamodb.QueryOutput, erro
 		return nil, awserr.New("ValidationException", "The table does not have the specified index: "+indexName, nil)
 	}
 
+	if err := table.CheckNumbers(mapAttributeValueToTypes(input.ExpressionAttributeValues)); err != nil {
+		return nil, awserr.New("ValidationException", err.Error(), nil)
+	}
+
 	if err := table.CheckStartKey(indexName, mapAttributeValueToTypes(input.ExclusiveStartKey)); err != nil {
 		return nil, awserr.New("ValidationException", err.Error(), nil)
 	}
@@ -540,6 +544,10 @@ func (fd *Client) Scan(input *dynamodb.ScanInput) (*dynamodb.ScanOutput, error) 
 	indexName := aws.StringValue(input.IndexName)
 	if indexName != "" && !table.HasIndex(indexName) {
 		return nil, awserr.New("ValidationException", "The table does not have the specified index: "+indexName, nil)
+	}
+
+	if err := table.CheckNumbers(mapAttributeValueToTypes(input.ExpressionAttributeValues)); err != nil {
+		return nil, awserr.New("ValidationException", err.Error(), nil)
 	}
 
 	if err := table.CheckStartKey(indexName, mapAttributeValueToTypes(input.ExclusiveStartKey)); err != nil {
